@@ -1339,6 +1339,13 @@ class Engine:
             f = node.value.func
             # logging / warnings: arguments evaluated only for their exceptions are dropped (DESIGN 2.1)
             if isinstance(f, ast.Attribute) and isinstance(f.value, ast.Name) and f.value.id in ("logger", "LOGGER", "warnings"):
+                h = self.hooks.get("log_call")
+                if h:
+                    # a contract module may OBSERVE the call (ghost counter / trace): hook(eng, st, receiver name, method name,
+                    # call node) -> new state or None; the arguments are still not evaluated
+                    r = h(self, st, f.value.id, f.attr, node.value)
+                    if r is not None:
+                        return [("next", r, None)]
                 return [("next", st, None)]
             if isinstance(f, ast.Name) and f.id in ("warn", "print"):
                 return [("next", st, None)]
